@@ -128,7 +128,17 @@ fn scenario(pr: &Params) -> Verdict {
         }
         for (j, (wire, _)) in msgs.iter().enumerate() {
             let b = rc::encode_message(wire);
-            if pr.long > 0 && pr.hdr_cut > 0 && j == 1 {
+            if pr.long > 8192 && pr.hdr_cut > 0 && msgs.len() > 2 && j == 2 {
+                continue; // went out glued to the big message's tail
+            }
+            if pr.long > 8192 && pr.hdr_cut > 0 && msgs.len() > 2 && j == 1 {
+                // a really big frame: cut inside its header and in the middle of its body; the rest of the body arrives
+                // in one piece with the peer's next message
+                let hdr = b.len() - pr.long - 9;
+                let mut glued = b.clone();
+                glued.extend(rc::encode_message(&msgs[2].0));
+                c.send_cut(&glued, &[hdr + pr.hdr_cut, hdr + 9 + pr.long / 2]);
+            } else if pr.long > 0 && pr.hdr_cut > 0 && j == 1 {
                 // the cut falls inside the big frame's header
                 let tail = if msgs.len() == 2 { 2 } else { 0 }; // the trailing empty frame's header
                 let hdr = b.len() - tail - pr.long - if pr.long > 255 { 9 } else { 2 };
@@ -288,7 +298,9 @@ fn scenario(pr: &Params) -> Verdict {
         sorted_g.sort();
         let mut sorted_w = want.clone();
         sorted_w.sort();
-        let class = if g.iter().any(|m| g.iter().filter(|x| *x == m).count() > want.iter().filter(|x| *x == m).count()) {
+        let class = if g.iter().any(|m| !want.contains(m)) {
+            "merged-split-or-modified"
+        } else if g.iter().any(|m| g.iter().filter(|x| *x == m).count() > want.iter().filter(|x| *x == m).count()) {
             "duplicated"
         } else if sorted_g == sorted_w {
             "reordered"
